@@ -131,6 +131,16 @@ fn specials() -> Vec<String> {
         "db \"abc".into(),
         "db \"abc\"".into(),
         "x: db \"abc\"\nstart: mov al, byte x".into(),
+        // every kind of definition laid across the end of the 1 MiB address space (the loader must wrap)
+        "set 0xFFFF\ndb [10]\ndb \"wrapped around!\"\nstart: print mem 0 -> 15\n".into(),
+        "SET 0xFFFF\nDB [13]\nDW \"wide chars\"\nstart: print mem 0xFFFF0 -> 0xFFFFF\n".into(),
+        "set 0xFFFF\ndb [9]\ndb [0x5A , 20]\nstart: hlt\n".into(),
+        "set 0xFFFF\ndb [9]\ndb [20]\nstart: hlt\n".into(),
+        "set 0xFFFF\ndb [11]\ndw [0x1234 , 20]\nstart: hlt\n".into(),
+        "set 0xFFFF\ndb [11]\ndw [20]\nstart: hlt\n".into(),
+        "set 0xFFFF\ndb [15]\ndw 0xBEEF\nx: db 1\nstart: mov al, byte x\n".into(),
+        "set 0xFFF0\ndb [250]\ndb \"0123456789ABCDEF\"\nstart: hlt\n".into(),
+        "set 0xF001\ndb [65500]\ndb \"crossing the top of memory with a string\"\nstart: hlt\n".into(),
         "macro".into(),
         "macro m".into(),
         "macro m(".into(),
@@ -210,7 +220,7 @@ pub fn base_s() -> BoxedStrategy<(String, bool)> {
         }),
         2 => crate::c13::raw_s().prop_map(|r| (crate::c13::render(&crate::c13::build(&r)).text, false)),
         2 => (crate::gen::gencfg_s(12, 2), proptest::collection::vec(any::<u8>(), 16)).prop_map(|(g, ch)| (render_program(&crate::gen::build_program(&g), &crate::progs::Layout { choices: ch, comments: true, trailing_newline: true, pack_lines: true }).text, true)),
-        1 => crate::c12::case_s().prop_map(|c| {
+        2 => crate::c12::case_s().prop_map(|c| {
             let mut c = c;
             c.data.truncate(8);
             (crate::c12::render_case(&c, 3).0.chars().take(3000).collect::<String>(), true)
